@@ -115,7 +115,11 @@ func (e eventer) listen(s *Session) {
 		case <-s.ctx.Done():
 			s.Close()
 			return
-		case v := <-e:
+		case v, ok := <-e:
+			if !ok {
+				// The Session closed the queue (shutdown), nothing more will arrive.
+				return
+			}
 			v.process(s.log)
 		}
 	}
